@@ -5,7 +5,7 @@
                  "qb_rb_space_free.function_pointer_call.2/verif_q_len_fn", "_rb_chunk_reclaim.function_pointer_call.1/verif_reclaim_fn"],
  "stubs": ["memcpy (witness form: bounds asserted, one arbitrary byte copied)"],
  "drops": ["qb_util_log/qb_util_perror diagnostics compiled out (stubs/nolog.h)"],
- "expect_classes": ["assertion"], "timeout": 300}
+ "expect_classes": ["assertion"], "timeout": 700}
 */
 /* qb_rb_chunk_write(data, len), non-overwrite ring: returns len and publishes a chunk of exactly that
  * length holding the caller's bytes (witness byte) at write_pt, or returns -EAGAIN and changes nothing;
